@@ -212,6 +212,7 @@ impl Visitor<'_, '_> {
         op: Sp<ast::AssignOpKind>,
         value: &Sp<ast::Expr>,
     ) -> ImplResult {
+        self.check_var_is_writable(var)?;
         let var_ty = self.check_var(var);
         let value_ty = self.check_expr_as_value(value, op.span);
         let (var_ty, value_ty) = (var_ty?, value_ty?);
@@ -245,6 +246,7 @@ impl Visitor<'_, '_> {
         self.require_int(count_ty, count.span, count.span)?;
 
         if let Some(clobber) = clobber {
+            self.check_var_is_writable(clobber)?;
             let clobber_ty = self.check_var(clobber)?;
             self.require_same((clobber_ty, count_ty), count.span, (clobber.span, count.span))?;
         }
@@ -355,6 +357,7 @@ impl ExprTypeChecker<'_, '_> {
 
             ast::Expr::XcrementOp { order: _, op, ref var }
             => {
+                self.check_var_is_writable(var)?;
                 let var_ty = self.check_var(var)?;
 
                 self.require_int(var_ty, op.span, var.span)?;
@@ -428,6 +431,20 @@ impl ExprTypeChecker<'_, '_> {
                 ))),
             }
         };
+        Ok(())
+    }
+
+    /// Check that a variable can be the target of an assignment. (i.e. that it is not a `const`)
+    fn check_var_is_writable(&self, var: &Sp<ast::Var>) -> ImplResult {
+        if let ast::VarName::Normal { ident, .. } = &var.name {
+            let def_id = self.ctx.resolutions.expect_def(ident);
+            if self.ctx.defs.var_const_expr(def_id).is_some() {
+                return Err(self.emit(error!(
+                    message("cannot assign to const"),
+                    primary(var, "'{}' is a const", ident),
+                )));
+            }
+        }
         Ok(())
     }
 
